@@ -1,7 +1,7 @@
 (* C11  Every referenced class is declared or imported, and every import resolves (import bookkeeping). *)
 From Coq Require Import List String Ascii ZArith Bool Permutation Sorting.Sorted. Import ListNotations.
 From SV Require Import Lib.Str Model.Types Model.Api Model.Back Proofs.MoreProofs Proofs.OrderProofs.
-From SV Require Import Model.View Model.Front Proofs.FrontProofs.
+From SV Require Import Model.View Model.Front Proofs.FrontProofs Proofs.ImportProofs.
 
 Theorem C11_builtins_not_imported : forall classes rmap q s,
   (str_eqb (hd [] (split_ch dot q)) (K"builtins") && Nat.eqb (List.length (split_ch dot q)) 2) || str_eqb q (K"typing.Any") = true ->
@@ -28,7 +28,68 @@ Theorem C11_front_reexported_by_sorted_nodup : forall rm qname,
   Sorting.Sorted.Sorted (fun a b => str_leb (rm_id a) (rm_id b) = true) (get_reexported_by rm qname) /\
   NoDup (map rm_id (get_reexported_by rm qname)).
 Proof. exact reexported_by_sorted_nodup. Qed.
+(* every class name written as a type is imported when it has to be: after a type has been rendered, for every named type at a
+   rendered position (named_leaves: any nesting depth, the built-in mappings left out) the import set contains the qualified
+   name _add_to_imports computes for it (import_effect; None = no import needed: builtins, typing.Any, the module itself);
+   imp s s': the module ids are untouched and the import set has only grown *)
+Theorem C11_type_names_are_imported : forall classes rmap nc t s x s',
+  type_string classes rmap nc t s = Ok (x, s') ->
+  imp s s' /\ Forall (fun nq : str * str => imported classes rmap (snd nq) s s') (named_leaves t).
+Proof. exact type_string_imports. Qed.
+(* one step of the bookkeeping: the computed name is in the set afterwards, nothing is removed *)
+Theorem C11_add_to_imports_effect : forall classes rmap q s x s',
+  add_to_imports classes rmap q s = Ok (x, s') -> imp s s' /\ imported classes rmap q s s'.
+Proof. exact add_to_imports_effect. Qed.
+(* ... in every position the statement names: parameter lists, result lists (up to a `None` result, which ends the list),
+   attribute types, public superclasses *)
+Theorem C11_parameter_types_are_imported : forall classes rmap nc ps indent im s x s',
+  parameter_string classes rmap nc ps indent im s = Ok (x, s') ->
+  imp s s' /\ Forall (fun nq : str * str => imported classes rmap (snd nq) s s') (flat_map param_leaves (if im then tl ps else ps)).
+Proof. exact parameter_string_imports. Qed.
+Theorem C11_result_types_are_imported : forall classes rmap nc rs s x s',
+  result_string classes rmap nc rs s = Ok (x, s') ->
+  imp s s' /\ Forall (fun nq : str * str => imported classes rmap (snd nq) s s') (result_leaves rs).
+Proof. exact result_string_imports. Qed.
+Theorem C11_attribute_type_is_imported : forall classes rmap nc ot s x s',
+  type_string_opt classes rmap nc ot s = Ok (x, s') ->
+  imp s s' /\ Forall (fun nq : str * str => imported classes rmap (snd nq) s s') (match ot with Some t => named_leaves t | None => [] end).
+Proof. exact type_string_opt_imports. Qed.
+Theorem C11_public_superclasses_are_imported : forall classes rmap (inline : str -> M str),
+  (forall sc s x s', inline sc s = Ok (x, s') -> imp s s') ->
+  forall sups names text s r s', super_loop classes rmap inline sups names text s = Ok (r, s') ->
+  imp s s' /\ Forall (fun sc => imported classes rmap sc s s') (filter (fun sc => negb (Naming.is_internal (super_name sc))) sups).
+Proof. exact super_loop_imports. Qed.
+(* a whole function or method written here: the named types of its parameters, of the bounds of its own type variables and of its
+   results are imported when they have to be *)
+Theorem C11_function_types_are_imported : forall classes rmap nc f indent is_method in_rx s x s',
+  function_string classes rmap nc f indent is_method in_rx s = Ok (x, s') ->
+  (if negb is_method && negb in_rx then shorter_reexport (f_name f) (f_reexported_by f) s else None) = None ->
+  imp s s' /\ Forall (fun nq : str * str => imported classes rmap (snd nq) s s') (func_leaves nc (g_class_generics s) is_method f).
+Proof. exact function_string_imports. Qed.
+(* a module stub: there is a state s0 right after the per-module reset (empty import set) such that the final import set - the one
+   the import block prints (C03_module_stub_inventory) - contains, for every public function of the module that is written here,
+   the import of every named type of its parameters, type-variable bounds and results; no renderer of a class or function ever
+   removes an import or touches the module ids (imp) *)
+Theorem C11_module_function_types_are_imported : forall classes rmap nc m s text pkg s',
+  module_string classes rmap nc m s = Ok ((text, pkg), s') ->
+  exists s0 rx, g_imports s0 = [] /\ g_class_generics s0 = [] /\ imp s0 s' /\
+    forall f, In f (m_functions m) -> f_public f = true ->
+      (if negb rx then shorter_reexport (f_name f) (f_reexported_by f) s0 else None) = None ->
+      Forall (fun nq : str * str => imported classes rmap (snd nq) s0 s') (func_leaves nc [] false f).
+Proof. exact module_string_imports. Qed.
+Theorem C11_class_rendering_keeps_imports : forall classes rmap nc fuel c indent rx s x s',
+  class_string classes rmap nc fuel c indent rx s = Ok (x, s') -> imp s s'.
+Proof. exact class_string_imp. Qed.
 Print Assumptions C11_builtins_not_imported.
 Print Assumptions C11_foreign_class_registered.
 Print Assumptions C11_import_path_minimal.
 Print Assumptions C11_front_reexported_by_sorted_nodup.
+Print Assumptions C11_type_names_are_imported.
+Print Assumptions C11_add_to_imports_effect.
+Print Assumptions C11_parameter_types_are_imported.
+Print Assumptions C11_result_types_are_imported.
+Print Assumptions C11_attribute_type_is_imported.
+Print Assumptions C11_public_superclasses_are_imported.
+Print Assumptions C11_function_types_are_imported.
+Print Assumptions C11_module_function_types_are_imported.
+Print Assumptions C11_class_rendering_keeps_imports.
